@@ -521,7 +521,9 @@ func (s *kvGenState) deepHistory() {
 var kvExhKeys = []string{"_", "1", "1_1", "\xff", "\xff\xff", "a"}
 
 // exhaustive: every sequence of <= maxLen symbols over
-//   put k (6) | del k (6) | clear | commit+begin | rollback+begin
+//
+//	put k (6) | del k (6) | clear | commit+begin | rollback+begin
+//
 // applied inside a write transaction on bucket 1/1 (sibling bucket 1 and child 1/1/1 hold the same
 // keys and must never change), over a committed base {k0,k2,k4}.  After each sequence: prefix dump
 // inside the writer, commit or rollback, prefix dump + neighbours from a reader.  The database is
@@ -620,10 +622,80 @@ func (s *kvGenState) exhaustive(maxLen int) {
 	g.Stats[fmt.Sprintf("exh-maxlen-%d", maxLen)] = 1
 }
 
+// siblingPrefix: two sibling buckets whose names are in prefix relation (n and n+suffix), at a random
+// depth, the longer one holding data; deleting / clearing the shorter one must not touch the longer
+// one (the scan prefix of a bucket ends with the separator).
+func (s *kvGenState) siblingPrefix() {
+	g := s.g
+	r := g.Rng
+	g.Reset()
+	s.committed = map[string]bool{}
+	s.working = nil
+	s.wOpen, s.rOpen = false, false
+	n1 := pick(r, "a", "1", "b", "\xff", "k", "10")
+	n2 := n1 + pick(r, "b", "0", "\xff", "1", "a")
+	var parent []string
+	for d := r.Intn(3); d >= 0; d-- {
+		parent = append(parent, kvGoodNames[r.Intn(5)])
+	}
+	s.op("sibling-prefix", "begin w")
+	for i := range parent {
+		s.op("sibling-prefix", "create w %s", kvPathTok(parent[:i+1]))
+	}
+	p1 := kvPathTok(append(append([]string{}, parent...), n1))
+	p2 := kvPathTok(append(append([]string{}, parent...), n2))
+	pp := kvPathTok(parent)
+	s.op("sibling-prefix", "create w %s", p1)
+	s.op("sibling-prefix", "create w %s", p2)
+	nk := 1 + r.Intn(4)
+	for i := 0; i < nk; i++ {
+		s.op("sibling-prefix", "put w %s %s %02x", p2, hexTok(s.randKeyNonEmpty()), 0xa0+i)
+		if r.Intn(2) == 0 {
+			s.op("sibling-prefix", "put w %s %s %02x", p1, hexTok(s.randKeyNonEmpty()), 0xb0+i)
+		}
+	}
+	committedFirst := r.Intn(3) > 0
+	if committedFirst {
+		s.op("sibling-prefix", "commit")
+		s.op("sibling-prefix", "begin w")
+		if r.Intn(2) == 0 {
+			s.op("sibling-prefix", "put w %s %s cc", p2, hexTok(s.randKeyNonEmpty()))
+		}
+	}
+	if r.Intn(4) == 0 {
+		s.op("sibling-prefix", "clear w %s", p1)
+	} else {
+		s.op("sibling-prefix", "delb w %s", p1)
+	}
+	s.op("sibling-prefix", "prefix w %s -", p2)
+	s.op("sibling-prefix", "names w %s", pp)
+	if r.Intn(4) > 0 {
+		s.op("sibling-prefix", "commit")
+	} else {
+		s.op("sibling-prefix", "rollback")
+	}
+	s.op("sibling-prefix", "begin r")
+	s.op("sibling-prefix", "prefix r %s -", p2)
+	s.op("sibling-prefix", "iter r %s - - a", p2)
+	s.op("sibling-prefix", "names r %s", pp)
+	s.op("sibling-prefix", "endr")
+}
+
+func (s *kvGenState) randKeyNonEmpty() []byte {
+	for {
+		if k := s.randKey(); len(k) > 0 {
+			return k
+		}
+	}
+}
+
 func genKv(g *Gen) {
 	s := &kvGenState{g: g}
 	r := g.Rng
 	nHist := g.Scale(500, 50000)
+	for i := g.Scale(60, 3000); i > 0; i-- {
+		s.siblingPrefix()
+	}
 	for i := 0; i < nHist; i++ {
 		maxOps := 60
 		if !g.Quick() {
